@@ -12,10 +12,11 @@
 //        item <hex file name> <line> ..  the vector of the key, IN ORDER
 //        end
 //   files <hex dir>
-//        an <hex file name> <cat> <pattern> ok <line> .. | PANIC | UNREADABLE | FILENO-DEPENDENT
-//             analyze_for_*(content, file_no, pattern) for every regular file of the directory
-//             (not recursive; sorted by name) and each of the 30 patterns, with file_no 0, 7
-//             and 1000 (all three must agree)
+//        an <hex file name> <cat> <pattern> ok <line> .. | PANIC | UNREADABLE
+//             analyze_for_*(content, 0, pattern) for every regular file of the directory
+//             (not recursive; sorted by name) and each of the 30 patterns
+//        fileno <hex file name> <cat> <pattern>
+//             printed after an `an` line when file numbers 7 or 1000 give a different answer
 //        end
 //   threads <hex dir> <n threads> <repetitions>
 //        the same analyze_for_* calls concurrently from n threads, each thread walking the
@@ -223,10 +224,10 @@ fn cmd_files(w: &mut impl Write, dir_hex: &str) {
             let r0 = analyze_one(cat, p, &src, 0);
             let r7 = analyze_one(cat, p, &src, 7);
             let r1000 = analyze_one(cat, p, &src, 1000);
+            // the answer with file number 0 is "the file on its own" (a file alone in a directory has index 0)
+            writeln!(w, "an {} {} {} {}", name, cat, p, fmt_res(&r0)).unwrap();
             if r0 != r7 || r0 != r1000 {
-                writeln!(w, "an {} {} {} FILENO-DEPENDENT", name, cat, p).unwrap();
-            } else {
-                writeln!(w, "an {} {} {} {}", name, cat, p, fmt_res(&r0)).unwrap();
+                writeln!(w, "fileno {} {} {}", name, cat, p).unwrap();
             }
         }
     }
